@@ -407,6 +407,23 @@ proof fn lemma_idx(i: int, j: int, h: int, w: int)
             }
         } }
 //@@ end
+//@@ fn src/lib.rs Range::range props=C05,C08,C17 ret=r external_body by=range_window_2x2,range_window_1x2,range_window_2x1,range_window_1x1
+//@@ sig
+    // ASSUMED in Verus (body: chunks().take().skip().zip(chunks_mut()...) + clone_from_slice, outside vstd); checked bounded by Kani.
+    requires
+        self.wf(),
+        // precondition of Range::new (undocumented for `range`): corners ordered component-wise ...
+        start.0 <= end.0, start.1 <= end.1,
+        // ... and the u32 cell count of Range::new does not overflow
+        (end.0 - start.0 + 1) * (end.1 - start.1 + 1) <= u32::MAX,
+    ensures
+        //# C05.range_wf
+        r.wf(),
+        //# C05.range_bounds
+        r.nonempty() && r.lo() == start && r.hi() == end,
+        //# C05.range_values
+        lawful::<T>() ==> forall|i: int, j: int| r.has(i, j) ==> r.at(i, j) == (if self.has(i, j) { self.at(i, j) } else { dflt::<T>() }),
+//@@ end
 //@@ fn src/lib.rs Range::get_value props=C05 ret=r
 //@@ sig
     requires self.wf(),
@@ -505,6 +522,77 @@ proof fn lemma_idx(i: int, j: int, h: int, w: int)
                 }
 //@@ end
 //@@ endimpl
+
+//@@ impl src/lib.rs Cell
+//@@ fn src/lib.rs Cell::new props=C05 ret=r
+//@@ sig
+    ensures
+        //# C05.cell_new
+        r.p() == position && r.v() == value,
+//@@ end
+//@@ fn src/lib.rs Cell::get_position props=C05 ret=r
+//@@ sig
+    ensures
+        //# C05.cell_pos
+        r == self.p(),
+//@@ end
+//@@ fn src/lib.rs Cell::get_value props=C05 ret=r
+//@@ sig
+    ensures
+        //# C05.cell_val
+        *r == self.v(),
+//@@ end
+//@@ endimpl
+
+// ---- witnesses: every `requires` above is satisfiable, and the contracts compose along a history of operations
+// (the calls below are checked against the preconditions; the asserts are consequences of the postconditions alone)
+fn witness_history<T: CellType>(v: T, v2: T, v3: T)
+    requires lawful::<T>(),
+{
+    let mut r = Range::<T>::new((1, 1), (2, 3));
+    r.set_value((2, 2), v);                   // inside
+    r.set_value((4, 1), v2);                  // grows rows
+    r.set_value((3, 5), v3);                  // grows columns
+    assert(r.wf() && r.lo() == (1u32, 1u32) && r.hi() == (4u32, 5u32));
+    let g = r.get_value((2, 2));
+    assert(g == Some(&v));
+    let g2 = r.get_value((4, 1));
+    assert(g2 == Some(&v2));
+    let g3 = r.get_value((1, 1));
+    assert(g3 == Some(&dflt::<T>()));
+    let g4 = r.get_value((0, 1));
+    assert(g4 is None);
+    let g5 = r.get((2, 4));
+    assert(g5 == Some(&v3));
+    let sz = r.get_size();
+    assert(sz.0 == 4 && sz.1 == 5);
+    assert((6u32 - 2u32 + 1) * (2u32 - 2u32 + 1) <= u32::MAX) by (compute);
+    let w = r.range((2, 2), (6, 2));
+    assert(w.at(2, 2) == v && w.at(5, 2) == dflt::<T>());
+    let e = Range::<T>::empty();
+    assert(e.wf());
+    let s = e.start();
+    assert(s is None);
+}
+fn witness_from_sparse<T: CellType>(a: T, b: T, c: T)
+    requires lawful::<T>(),
+{
+    let mut cells: Vec<Cell<T>> = Vec::new();
+    cells.push(Cell::new((3, 7), a));
+    cells.push(Cell::new((3, 5), b));
+    cells.push(Cell::new((4, 7), c));
+    proof {
+        let cs = cells@;
+        assert(cs[0].pos == (3u32, 7u32) && cs[1].pos == (3u32, 5u32) && cs[2].pos == (4u32, 7u32));
+        assert(rows_sorted(cs));
+        reveal_with_fuel(lastw, 4);
+        assert(lastw(cs, 3, 3, 7) == 0 && lastw(cs, 3, 4, 5) == -1);
+    }
+    let r = Range::from_sparse(cells);
+    assert(r.wf() && r.nonempty());
+    assert(r.at(3, 7) == a);
+    assert(r.has(4, 5) ==> r.at(4, 5) == dflt::<T>());
+}
 
 } // verus!
 fn main() {}
